@@ -59,8 +59,13 @@ package generic
 
 // a call looks the effective method up, builds and caches it in one critical
 // section (a defmethod cannot slip in between), and calls it outside the lock
+//@ pure-func slip.ClassGeneration
 //@ func generic.(*Aux).Call
 //@   property C10 C17
+// C10 / C12: the cache is consulted only after it was brought up to date with the
+// class definitions: an entry filed under class names is dropped when any class
+// has been defined or redefined since (its precedence list may have changed).
+//@   on-call buildSpecKey cache-current-with-classes: aux.classGen == ClassGeneration()
 //@   option trace
 //@   on-call buildCacheMeth under-lock: $held == 1 && $nunlock == 0
 //@   on-map-update cache same-critical-section: $held == 1 && $nunlock == 0
